@@ -1,6 +1,6 @@
 (* C18 - no hidden sharing or mutation: property theorems (proofs in theories/ShareProofs.v). *)
 From Coq Require Import List Arith Bool ZArith.
-From Verif Require Import Share ShareProofs ShareMore.
+From Verif Require Import Share ShareProofs ShareMore ShareTwice.
 Import ListNotations.
 
 (* Serialization.  For every class table / format dialect E, call dialect, no_copy set,
@@ -176,3 +176,29 @@ Theorem C18_decode_dialect_independent : forall E E' t w n,
   fields_agree E E' -> unpack_top E t w n = unpack_top E' t w n.
 Proof. exact unpack_dialect_independent. Qed.
 Print Assumptions C18_decode_dialect_independent.
+
+(* Where labels come from (no conformance needed): every label of a result is a label of the argument
+   or was drawn from the call's own supply [n, n').  Hence two calls on the same argument with
+   disjoint supplies return structures that have nothing in common but the argument's own containers:
+   no cached or shared default container can appear in two results. *)
+Theorem C18_labels_arg_or_supply : forall E n0 v call e n,
+  all_old n0 v = true -> n0 <= n ->
+  let (r, n') := run_pack E v call e n in n <= n' /\ lab_ok n0 n n' r.
+Proof. intros E n0 v. exact (pack_labels_all E n0 v). Qed.
+Print Assumptions C18_labels_arg_or_supply.
+
+Theorem C18_two_calls_disjoint : forall E n0 call N t v,
+  all_old n0 v = true ->
+  let (r1, n1) := pack_top E call N t v n0 in
+  let (r2, n2) := pack_top E call N t v n1 in
+  forall l, In l (labels r1) -> In l (labels r2) -> l < n0.
+Proof. exact pack_twice_disjoint. Qed.
+Print Assumptions C18_two_calls_disjoint.
+
+Theorem C18_decode_two_calls_disjoint : forall E n0 t w,
+  all_old n0 w = true ->
+  let (r1, n1) := unpack_top E t w n0 in
+  let (r2, n2) := unpack_top E t w n1 in
+  forall l, In l (labels r1) -> In l (labels r2) -> l < n0.
+Proof. exact unpack_twice_disjoint. Qed.
+Print Assumptions C18_decode_two_calls_disjoint.
